@@ -34,14 +34,37 @@ class C12(EngineProp):
     level_note = 'Trusted: as C07; out-of-domain regions of the decoder are robustness-checked only.'
     design_ref = '§5 C12'
     rule = ('scripts mixing legal traffic with frames of any type on any stream (unknown, finished, live, 0), wrong types for the role, duplicate ids, fragments of a different type, '
-            'handlers/publishers/futures scripted to raise; after each script a probe request-response on a fresh stream must be answered, a request-response issued by the local application must reach the wire and its response the caller, and both tasks alive; '
+            'handlers/publishers/futures scripted to raise; in half of the scripts a well-formed fragmented request of the peer is begun before the script and finished after it (it must be served); after each script a probe request-response on a fresh stream must be answered, a request-response issued by the local application must reach the wire and its response the caller, and both tasks alive; '
             'plus raw messages on the message framing (serialised frames as is, truncated, IGNORE-flagged and truncated, bit-flipped, unknown type, random bytes, empty, the reserved top bit of the first field or of the stream id set - half of these as a KEEPALIVE that asks to be echoed), '
             'decoded by the codec model on the model side; malformed input on the byte-stream framing under arbitrary chunking is exercised by the C04 check')
     assumptions = []
 
+    BYSTANDER = {'server': 1000003, 'client': 1000004}
+
+    def cases(self, rng, tier):
+        out = super().cases(rng, tier)
+        for c in out:
+            # a bystander: a well-formed fragmented request of the peer whose first fragment arrives before the script and whose last
+            # fragment arrives after it ("requests on other streams - concurrent or subsequent - are still served correctly")
+            c['bystander'] = rng.random() < 0.5
+        return out
+
+    async def prologue(self, loop, H, case):
+        if case.get('bystander'):
+            H.apply({'op': 'recv', 'frame': {'ty': 'REQUEST_RESPONSE', 'sid': self.BYSTANDER[case['role']], 'data': [240], 'follows': True}, 'beh': 'fr.239'})
+            await loop.settle()
+
     async def epilogue(self, loop, H, case):
         if H.closed_seen:
             return {'closed': True}
+        by = None
+        if case.get('bystander'):
+            n00 = len(H.t.sent)
+            H.apply({'op': 'recv', 'frame': {'ty': 'PAYLOAD', 'sid': self.BYSTANDER[case['role']], 'data': [241], 'next': True, 'complete': True}, 'beh': 'fr.239'})
+            await loop.settle()
+            H.poll_futures()
+            from harness.engine import simnet_tok as _tok
+            by = [_tok(e) for e in H.t.sent[n00:]]
         if case['role'] == 'server':
             sid = 1000001
         else:
@@ -72,7 +95,7 @@ class C12(EngineProp):
             H.poll_futures()
         else:
             own = None
-        return {'probe_sid': sid, 'probe_wire': got, 'closed': False, 'own_probe': own,
+        return {'probe_sid': sid, 'probe_wire': got, 'closed': False, 'own_probe': own, 'bystander_wire': by,
                 'sender_alive': H.ep._sender_task is not None and not H.ep._sender_task.done(),
                 'receiver_alive': H.ep._receiver_task is not None and not H.ep._receiver_task.done()}
 
@@ -86,6 +109,10 @@ class C12(EngineProp):
             want = 'S:PAYLOAD:%d:0110:0:0:249' % ex['probe_sid']
             if want not in ex['probe_wire']:
                 fails.append({'signature': 'probe-not-served', 'what': 'after the script a fresh request-response on stream %d was not answered (wire: %s)' % (ex['probe_sid'], ex['probe_wire'][:4])})
+            if ex.get('bystander_wire') is not None:
+                bsid = self.BYSTANDER[case['role']]
+                if bsid not in _peer_touched_sids(obs, skip_first=True) and ('S:PAYLOAD:%d:0110:0:0:239' % bsid) not in ex['bystander_wire']:
+                    fails.append({'signature': 'concurrent-request-not-served', 'what': 'a fragmented request-response on stream %d was begun before the script and finished after it (240 + 241): it was not answered (wire: %s)' % (bsid, ex['bystander_wire'][:3])})
             own = ex.get('own_probe')
             if own is not None and own.get('sid') in _peer_touched_sids(obs):
                 # the peer had already sent frames on the very id this request was later given (an id of the endpoint's own parity,
@@ -120,11 +147,13 @@ class C12(EngineProp):
         return fails
 
 
-def _peer_touched_sids(obs):
+def _peer_touched_sids(obs, skip_first=False):
     out = set()
-    for m, _ in obs['steps']:
+    for i, (m, _) in enumerate(obs['steps']):
         if m == 'RR:248':
             break
+        if skip_first and (i == 0 or m.startswith('RECV:PAYLOAD:100000') and m.endswith(':241:fr.239')):
+            continue
         if m.startswith('RECV:'):
             out.add(int(m.split(':')[2]))
         elif m.startswith('RAW:'):
